@@ -128,6 +128,16 @@ PrevLabelSpec(s, n) ==
   IF n = 0 THEN [i |-> Len(s), start |-> FALSE]
   ELSE IF n <= Len(st) THEN [i |-> st[Len(st) - n + 1], start |-> FALSE]
   ELSE [i |-> 0, start |-> TRUE]
+\* The same two steppers given the label starts st = Parse(s).starts and len = Len(s): equal to the definitions above
+\* (MC_Names: SteppersFromStarts), but the text is read once per name instead of once per step - names of 127 labels.
+RECURSIVE FirstAfter(_, _, _)
+FirstAfter(st, i, off) == IF i > Len(st) THEN 0 ELSE IF st[i] > off THEN i ELSE FirstAfter(st, i + 1, off)   \* st is increasing
+NextLabelFrom(st, len, off) ==
+  LET k == FirstAfter(st, 1, off) IN IF k = 0 THEN [i |-> len, end |-> TRUE] ELSE [i |-> st[k], end |-> FALSE]
+PrevLabelFrom(st, len, n) ==
+  IF n = 0 THEN [i |-> len, start |-> FALSE]
+  ELSE IF n <= Len(st) THEN [i |-> st[Len(st) - n + 1], start |-> FALSE]
+  ELSE [i |-> 0, start |-> TRUE]
 \* the text of each label (escapes kept), as SplitDomainName returns it
 SplitDomainNameSpec(s) ==
   LET p == Parse(s)
